@@ -15,4 +15,10 @@ cd "$OUT/schema"
 # regenerating from the same sources yields identical files
 mkdir -p "$OUT/again"
 "$OUT/spec" generate --skip-rpc -i . zzc05 "$OUT/again"
-for f in "$OUT"/again/*_generated.go; do cmp -s "$f" "$OUT/go/$(basename "$f")" || { echo "NONDETERMINISTIC OUTPUT: $f"; exit 3; }; done
+for f in "$OUT"/again/*_generated.go; do cmp -s "$f" "$OUT/go/$(basename "$f")" || { echo "regeneration from the same sources differs: $f"; exit 3; }; done
+# ... also when the output directory already holds the files of a larger, earlier version of the schema
+mkdir -p "$OUT/small/zzc05" "$OUT/fresh"
+awk '/^message Fixed/{p=1} p&&/^}/{print; exit} {if(!p||1)print}' zzc05/a.spec | awk 'BEGIN{keep=1} /^message I16/{keep=0} keep{print}' > "$OUT/small/zzc05/a.spec"
+cp -r zzc05b "$OUT/small/"
+(cd "$OUT/small" && "$OUT/spec" generate --skip-rpc -i . zzc05 "$OUT/again" && "$OUT/spec" generate --skip-rpc -i . zzc05 "$OUT/fresh")
+for f in "$OUT"/fresh/*_generated.go; do cmp -s "$f" "$OUT/again/$(basename "$f")" || { echo "regenerating a smaller schema over existing output differs from generating it into an empty directory: $(basename "$f")"; exit 3; }; done
